@@ -229,7 +229,7 @@ theorem argminLoop_default (col : List (Option α)) (i : Nat) (m : α) (id0 : Na
       exact ih (i + 1) (fun j v hj => h (j + 1) v (by simpa using hj))
 
 /-- the second open statement of round 1, as a theorem: when **no** entry of the column is a number below ARGMIN's
-sentinel (areas ≥ 1e300, infinite or NaN — coordinates of about 1e150 and more), ARGMIN answers its default index 0, the
+initial minimum `big` (`+inf` in the code since 68863c7: areas that are infinite or NaN — coordinates of about 1e154 and more), ARGMIN answers its default index 0, the
 NaN stored there does not trigger the `break`, and the pass removes the **first** observation. -/
 theorem vwStep_sentinel (big eps2 : α) (S : VState α) (hl : S.length > 2) (p : Fix α) (h0 : S[0]? = some (p, none))
     (h : ∀ (j : Nat) (v : α), (S.map (·.2))[j]? = some (some v) → ¬ v < big) :
